@@ -39,9 +39,18 @@ def main():
         rc, out = sh('/venv/bin/python _seed/x/demo.py', cwd=wt, timeout=900)
         res['demo_clean_rc'] = rc
         rc, out = sh('git apply _seed/x/patch.diff', cwd=wt)
+        if rc != 0:
+            # the tree moved on under the patch (my own fix commits): context lines may be offset
+            rc2, out2 = sh('patch -p1 --no-backup-if-mismatch -s < _seed/x/patch.diff', cwd=wt)
+            res['applied_with'] = 'patch(1) with fuzz, after git apply refused' if rc2 == 0 else 'NOT APPLIED'
+            if rc2 == 0:
+                rc = 0
         res['apply_rc'] = rc
         if rc != 0:
             res['apply_err'] = out[-300:]
+            res['confirmed'] = False
+            print(json.dumps(res))
+            return
         rc, out = sh('/venv/bin/python _seed/x/demo.py', cwd=wt, timeout=900)
         res['demo_patched_rc'] = rc
         res['demo_patched_tail'] = out[-300:]
